@@ -3,7 +3,7 @@ CONSTANTS
   Which = "strand"
   K = 3
   B = 4
-  MaxLen = 4
+  MaxLen = 5
   Alpha = {0, 1, 3}
 INVARIANT OK
 CHECK_DEADLOCK FALSE
